@@ -65,6 +65,11 @@ def split_url(url: str) -> SplitURLType:
         ):
             raise ValueError("Invalid IPv6 URL")
         if has_left_bracket:
+            hostinfo = netloc.rpartition("@")[2]
+            if ("[" in hostinfo) != ("]" in hostinfo):
+                # a bracket pair cannot span the "@": the host would keep a
+                # lone bracket and the URL could not be parsed again
+                raise ValueError("Invalid IPv6 URL")
             bracketed_host = netloc.partition("[")[2].partition("]")[0]
             if "[" in bracketed_host:
                 # a bracket cannot occur inside an IP-literal; the host could
